@@ -745,10 +745,19 @@ class Problem(  # type: ignore[misc]
             factory.kind.set_time("TIMED_GOALS")
             factory.kind.set_time("CONTINUOUS_TIME")
         for tc in self._trajectory_constraints:
-            if tc.is_always():
-                factory.kind.set_constraints_kind("STATE_INVARIANTS")
+            # same decomposition as the state_invariants property: a conjunction of
+            # constraints, or a universally quantified one
+            if tc.is_and():
+                parts = tc.args
+            elif tc.is_forall():
+                parts = [tc.arg(0)]
             else:
-                factory.kind.set_constraints_kind("TRAJECTORY_CONSTRAINTS")
+                parts = [tc]
+            for part in parts:
+                if part.is_always():
+                    factory.kind.set_constraints_kind("STATE_INVARIANTS")
+                else:
+                    factory.kind.set_constraints_kind("TRAJECTORY_CONSTRAINTS")
             factory.update_problem_kind_expression(tc)
         for goal in chain(*self._timed_goals.values(), self._goals):
             factory.update_problem_kind_expression(goal)
